@@ -494,7 +494,13 @@ impl World {
         for (j, r) in self.cfg.workload.iter().enumerate() {
             if r.from == i && r.to == peer {
                 if let Some(t) = self.ledger[j].submitted_at {
-                    if !self.ledger[j].answer_delivered && now.saturating_duration_since(t) >= REQUEST_TIMEOUT {
+                    // "answered": its response datagrams reached the handler. Where sessions can
+                    // legitimately disappear under a request in flight (cache capacity, session
+                    // timeout) such a datagram may be unreadable, so only a response handed to the
+                    // application counts there.
+                    let sessions_may_vanish = self.cfg.session_capacity.is_some() || self.cfg.session_timeout.is_some();
+                    let answered = if sessions_may_vanish { self.ledger[j].complete } else { self.ledger[j].answer_delivered };
+                    if !answered && now.saturating_duration_since(t) >= REQUEST_TIMEOUT {
                         witness = true;
                     }
                 }
